@@ -170,8 +170,8 @@ pub fn with_case<V: Visitor>(name: &str, v: &mut V) -> String {
         "refcell" => peq!(std::cell::RefCell::new(9u32)),
         "cell" => peq!(std::cell::Cell::new(9u16)),
         "std_mutex" => v.visit(&|| std::sync::Mutex::new("m".to_string()), &|a, b| *a.lock().unwrap() == *b.lock().unwrap(), &|a| format!("{:?}", a.lock().unwrap())),
-        "pl_mutex" => v.visit(&|| savefile::parking_lot::Mutex::new(3u8), &|a, b| *a.lock() == *b.lock(), &|a| format!("{:?}", *a.lock())),
-        "pl_rwlock" => v.visit(&|| savefile::parking_lot::RwLock::new(4u8), &|a, b| *a.read() == *b.read(), &|a| format!("{:?}", *a.read())),
+        "pl_mutex" => v.visit(&|| parking_lot::Mutex::new(3u8), &|a, b| *a.lock() == *b.lock(), &|a| format!("{:?}", *a.lock())),
+        "pl_rwlock" => v.visit(&|| parking_lot::RwLock::new(4u8), &|a, b| *a.read() == *b.read(), &|a| format!("{:?}", *a.read())),
         "atomic_u32" => v.visit(&|| std::sync::atomic::AtomicU32::new(4_000_000_000), &|a, b| a.load(Ordering::SeqCst) == b.load(Ordering::SeqCst), &|a| format!("{:?}", a)),
         "atomic_bool" => v.visit(&|| std::sync::atomic::AtomicBool::new(true), &|a, b| a.load(Ordering::SeqCst) == b.load(Ordering::SeqCst), &|a| format!("{:?}", a)),
         "atomic_i64" => v.visit(&|| std::sync::atomic::AtomicI64::new(-5), &|a, b| a.load(Ordering::SeqCst) == b.load(Ordering::SeqCst), &|a| format!("{:?}", a)),
